@@ -201,6 +201,12 @@ def run_case(case, ctx):
             wtag = ["c06_inverse_returned_unconverged_with_warning"] if _warned["n"] else []
             ctx.check("load(stress(L))==L", bool(np.all(np.abs(bk - L) <= lim)), observed=bk, expected=L,
                       tags=narrow + wtag, detail={"branch": branch, "limit": lim, "convergence_warnings": _warned["n"]})
+            # both signs: the backward functions are odd as well
+            bkn, err = _call(ctx, back, -vec.copy(), tol, f"{kind}.{branch}.load(-ndarray)", ["container_ndarray"])
+            if bkn is not None:
+                wtag_n = ["c06_inverse_returned_unconverged_with_warning"] if _warned["n"] else []
+                ctx.check("load(stress(L))==L", bool(np.all(np.abs(np.asarray(bkn, dtype=float) + L) <= lim)), observed=bkn, expected=-L,
+                          tags=narrow + wtag + wtag_n, detail={"branch": branch, "negative_stresses": True, "convergence_warnings": _warned["n"]})
         # ---- containers
         cont, mode = _container(case["container"], L)
         tag = ["container_" + case["container"], f"law_{kind}"]
